@@ -441,6 +441,8 @@ func runC18(r *Run) {
 	// exact thresholds are only as good as the total they are given: a view's available power is the
 	// sum over the validator set assigned to that very view (shared with C01.9 / C06.5 / C07.1b)
 	availablePowerCoherence(r, "C18.7")
+	r.Rule("C18.8", "no hand-derived thresholds: no production comparison has an operand computed by arithmetic over a ByzantineMajority/Minority result (n - maj, min - 1, ...); thresholds are compared as returned")
+	derivedThresholds(r, "C18.8")
 	r.Expect("C18.1", 3, "three residue classes for majority")
 	r.Expect("C18.2", 3, "three residue classes for minority")
 	r.Expect("C18.6", 15, "threshold comparison sites in production code")
